@@ -254,6 +254,17 @@ def bigintent():
     return [Table(3, 17, [list(range(1, 18)), list(range(1, 9)), [1, 2, 17]], 'bigintent3x17')]
 
 
+def colossal(big=False):
+    """Lattices far beyond what the TLA+ lattice value can be built for here: hundreds of atoms (nominal scales) and,
+    in the thorough tier, 65 537 concepts.  Judged by relational clauses on the library's own extents."""
+    out = [Table(520, 520, [[i + 1] for i in range(520)], 'colossal-nominal520')]
+    if big:
+        out.append(Table(1030, 1030, [[i + 1] for i in range(1030)], 'colossal-nominal1030'))
+        rows = [[j for j in range(1, 17) if j != i + 1] for i in range(16)] + [[17]]
+        out.append(Table(17, 17, rows, 'colossal-contranominal16plus1'))
+    return out
+
+
 def biglat(seed, big=False):
     """Lattices of several hundred to a thousand concepts with wide levels (> 128 / > 256 members)."""
     rng = random.Random(seed * 101 + 9)
